@@ -143,6 +143,7 @@ func threadRun(L *LState) {
 			} else {
 				lv = LString(fmt.Sprint(rcv))
 			}
+			L.closeUpvalues(0) // the thread is dead: detach closures from its registers
 			if parent := L.Parent; parent != nil {
 				if L.wrapped {
 					L.Push(lv)
